@@ -31,6 +31,7 @@ import (
 	"fmt"
 	lru "github.com/hashicorp/golang-lru"
 	"sort"
+	"sync"
 )
 
 const (
@@ -108,6 +109,9 @@ type TxPool struct {
 
 	executed db.Database
 	batch    db.Batch
+	// batchLock guards batch: db.Batch is not safe for concurrent use, and
+	// AddTransaction (network/RPC goroutines) and MarkExecuted (chain lock) both write to it
+	batchLock sync.Mutex
 }
 
 var (
@@ -154,6 +158,13 @@ func (pool *TxPool) Close() {
 }
 
 func (pool *TxPool) refreshGateNonce(tx *types.Transaction) {
+	pool.batchLock.Lock()
+	defer pool.batchLock.Unlock()
+	pool.refreshGateNonceLocked(tx)
+}
+
+// refreshGateNonceLocked requires batchLock to be held.
+func (pool *TxPool) refreshGateNonceLocked(tx *types.Transaction) {
 	sub := tx.SubTransactions
 	if 1 == len(sub) && 0 != sub[0].Address {
 		txPoolLogger.Debugf("refreshGateNonce. txhash: %s, gateNonce: %d", tx.Hash.String(), sub[0].Address)
@@ -189,6 +200,7 @@ func (pool *TxPool) MarkExecuted(header *types.BlockHeader, receipts types.Recei
 	if receipts != nil && len(receipts) != 0 {
 		go mysql.InsertLogs(header.Height, receipts, header.Hash)
 
+		pool.batchLock.Lock()
 		for i, receipt := range receipts {
 			hash := receipt.TxHash
 			txHashList = append(txHashList, hash)
@@ -219,12 +231,13 @@ func (pool *TxPool) MarkExecuted(header *types.BlockHeader, receipts types.Recei
 				pool.batch.Write()
 				pool.batch.Reset()
 			}
-			pool.refreshGateNonce(tx)
+			pool.refreshGateNonceLocked(tx)
 		}
 		if pool.batch.ValueSize() > 0 {
 			pool.batch.Write()
 			pool.batch.Reset()
 		}
+		pool.batchLock.Unlock()
 	}
 
 	if evictedTxs != nil {
@@ -292,7 +305,9 @@ func (pool *TxPool) Clear() {
 
 	executed, _ := db.NewDatabase(txDataBasePrefix)
 	pool.executed = executed
+	pool.batchLock.Lock()
 	pool.batch.Reset()
+	pool.batchLock.Unlock()
 
 	pool.received = newSimpleContainer(rcvTxPoolSize)
 }
